@@ -55,10 +55,28 @@ static FieldProbe field_probe(const BaseField *bf)
 	return r;
 }
 typedef FieldProbe (*field_probe_fn)(const BaseField *);
+// a string field of tag N built through the typed API from a length-carrying std::string (a NUL byte in
+// the value survives, unlike the const char * route of create_field); 0 unless the metadata creates
+// exactly this class for the tag
+template<unsigned short N>
+static BaseField *make_string_field(const BaseField *like, const f8String& v, const RealmBase *rlm)
+{
+	if (typeid(*like) != typeid(Field<f8String, N>)) return nullptr;
+	Field<f8String, N> *f(new Field<f8String, N>(f8String(), rlm));
+	f->set(v);		// the typed setter
+	Field<f8String, N> *g(new Field<f8String, N>(v, rlm));	// and the value constructor: both must hold the same bytes
+	const bool same(f->get() == g->get() && g->get().size() == v.size());
+	delete f;
+	if (!same) { delete g; return nullptr; }
+	return g;
+}
+typedef BaseField *(*make_string_fn)(const BaseField *, const f8String&, const RealmBase *);
+static make_string_fn g_make_string[FV_MAX];
 template<unsigned B, unsigned L> struct FillProbe
 	{ static void fill(field_probe_fn *t) { FillProbe<B, L / 2>::fill(t); FillProbe<B + L / 2, L - L / 2>::fill(t); } };
 template<unsigned B> struct FillProbe<B, 1>
-	{ static void fill(field_probe_fn *t) { t[B] = field_probe<static_cast<unsigned short>(B)>; } };
+	{ static void fill(field_probe_fn *t)
+		{ t[B] = field_probe<static_cast<unsigned short>(B)>; g_make_string[B] = make_string_field<static_cast<unsigned short>(B)>; } };
 static const field_probe_fn *probe_table()
 {
 	static field_probe_fn tab[FV_MAX];
@@ -189,6 +207,15 @@ static std::string do_line(const std::string& line)
 			}
 			std::unique_ptr<Message> msg(ctx.create_msg("0"));
 			BaseField *fld(ctx.create_field(static_cast<unsigned short>(fnum), from.c_str()));
+			if (ty == 's' && from.find('\0') != std::string::npos)
+			{
+				// the const char * route cut the value at its first NUL: rebuild the field through the typed API
+				probe_table();
+				BaseField *typed(g_make_string[fnum](fld, from, be->_rlm));
+				delete fld;
+				if (!typed) return "NO-TYPED-STRING-FIELD";
+				fld = typed;
+			}
 			const int idx(fld->get_rlm_idx());				// virtual, through BaseField
 			const FieldProbe fp(probe_table()[fnum](fld));	// the object's own is_valid() / get_rlm_idx()
 			if (fp.idx != idx) { delete fld; return "INCONSISTENT get_rlm_idx"; }
